@@ -350,7 +350,7 @@ func C06(p *core.Program, r *core.Report) {
 				// a reference that starts with '#' (spelled with HasPrefix or as a test of the first
 				// byte; the empty string has been returned before)
 				// spellings of "starts with #" (the string is known to be non-empty at that point)
-				"fragment": `^(strings\.HasPrefix\(` + regexp.QuoteMeta(ref) + `,"#"\)|` + regexp.QuoteMeta(ref) + `\[0\] == 35|` + regexp.QuoteMeta(ref) + `\[:1\] == "#")$`,
+				"fragment": `^(strings\.HasPrefix\(` + regexp.QuoteMeta(ref) + `,"#"\)|` + regexp.QuoteMeta(ref) + `\[0\] == 35|` + regexp.QuoteMeta(ref) + `\[:1\] == "#"|` + regexp.QuoteMeta(`strings.HasPrefix(strings.ToLower(`+ref+`),strings.ToLower("#"))`) + `|` + regexp.QuoteMeta(`strings.HasPrefix(strings.ToLower(`+ref+`),"#")`) + `)$`,
 				// a scheme is case-insensitive: JavaScript: and DATA: are the same pass-through cases
 				"data":     `^(` + regexp.QuoteMeta(`stringutil.HasPrefixIgnoreCase(`+ref+`,"data:")`) + `|` + regexp.QuoteMeta(`strings.HasPrefix(strings.ToLower(`+ref+`),"data:")`) + `|` + regexp.QuoteMeta(`strings.HasPrefix(strings.ToLower(`+ref+`),strings.ToLower("data:"))`) + `)$`,
 				"js":       `^(` + regexp.QuoteMeta(`stringutil.HasPrefixIgnoreCase(`+ref+`,"javascript:")`) + `|` + regexp.QuoteMeta(`strings.HasPrefix(strings.ToLower(`+ref+`),"javascript:")`) + `|` + regexp.QuoteMeta(`strings.HasPrefix(strings.ToLower(`+ref+`),strings.ToLower("javascript:"))`) + `)$`,
